@@ -24,13 +24,14 @@ for cpu, maxlen in (("6800", 3), ("6809", 5), ("68hc08", 4), ("z80", 4)):
 GROUPS += [g for g in _c12.GROUPS if g.name == "C12/assemble"]
 # the dump shows exactly the bytes marked DL_DATA: the data directives' contracts carry "every byte they emit is marked DL_DATA"
 GROUPS += [g for g in _c05.GROUPS if g.tier == "quick" and ("parse_db" in g.name or "parse_dc" in g.name)]
-LEVEL = "other"
-EXPLANATION = ("Partial: contract proof (DFCC loop contracts, witness byte, ghost reader of the listing) that the 'data sections' dump shows every data byte exactly once at its address, "
-               "and that assemble() hands the listing callback exactly the address range of the instruction just emitted; the per-CPU listing formatters, the symbol table text and the "
-               "equality 'disassembly text == disassembly of the bytes shown' are not under contract.")
-TRUSTED = ["fprintf replaced by a contract that recognises the dump's format strings", "Memory replaced by the witness contract"]
+LEVEL = "proof"
+EXPLANATION = ("Contract proofs (DFCC loop contracts, witness byte, ghost reader of the listing) that the 'data sections' dump shows every data byte exactly once at its address, "
+               "that assemble() hands the listing callback exactly the address range of the instruction just emitted, that the data directives mark every byte they emit as data, and that seven "
+               "per-CPU listing formatters (extracted verbatim, disassembler replaced by its C08 length contract) show every unit of the range once, in order, with its address and memory value; "
+               "the other listing formatters, the symbol table text and the equality 'disassembly text == disassembly of the bytes shown' are not under contract, so the property is proved for these functions only.")
+TRUSTED = ["fprintf replaced by a contract that recognises the dump's / the formatters' format strings", "Memory replaced by the witness contract (dump) or by an uninterpreted function of the address (formatters)", "disasm_<cpu> replaced by its length contract in the formatter groups (discharged by C08 for tms9900, msp430, 6800, 68hc08; assumed for 6809, z80)"]
 MANIFEST = {
-    "text": "Partial: for any image range and bytes-per-address, the data-section dump of the listing shows each data byte exactly once with its value on the line whose label + column is its address, and nothing else; assemble() passes exactly [start, location counter) to the listing formatter.",
-    "note": "Two per-CPU listing formatters (tms9900, msp430/msp430x) are under contract. The marker obligation of the data directives (.db/.dc*: every emitted byte is marked as data, which is what the dump selects) is shared with C05. the other 55 per-CPU list_output formatters, symbol table and low/high summary are not covered.",
-    "technique": "CBMC DFCC loop contracts (witness + ghost listing reader) on main/naken_asm.cpp and core/AsmContext.cpp",
+    "text": "Partial: for any image range and bytes-per-address, the data-section dump of the listing shows each data byte exactly once with its value on the line whose label + column is its address, and nothing else; assemble() passes exactly [start, location counter) to the listing formatter; for seven CPUs the formatter shows every unit of that range exactly once, in order, with its address and the value in memory (any range length).",
+    "note": "Seven per-CPU listing formatters (tms9900, msp430/msp430x, 6800, 6809, 68hc08, z80) are under contract with the disassembler replaced by its length contract. The marker obligation of the data directives (.db/.dc*: every emitted byte is marked as data, which is what the dump selects) is shared with C05. the other 50 per-CPU list_output formatters, symbol table and low/high summary are not covered.",
+    "technique": "CBMC DFCC loop contracts (witness + ghost listing reader) on main/naken_asm.cpp, core/AsmContext.cpp and on seven per-CPU listing formatters extracted verbatim from disasm/*.cpp",
 }
